@@ -433,9 +433,10 @@ def call_builtin(interp, name, args, kwargs, site):
             node = f.node if isinstance(f, Closure) else (f.fn.node if isinstance(f, BoundMethod) and isinstance(f.fn, Closure) else None)
             if node is not None and isinstance(node, ast.AsyncFunctionDef):
                 return f
-            return Builtin2("contract.async_of", f)
-        if isinstance(f, CMMethodT):
-            return f
+            return AwaitifyWrapped(f)
+        from .interp import CMMethod
+        if isinstance(f, CMMethod):
+            return AwaitifyWrapped(f)
         raise Unsupported(f"awaitify({f!r})")
     if name == "contract.async_bool":
         return UserAwaitable(("ret", mk_bool(to_bool(ctx, args[0]))), ctx.evseq, None)
@@ -517,6 +518,8 @@ def call_builtin(interp, name, args, kwargs, site):
         v = args[0]
         if isinstance(v, (UserFn, Closure, BoundMethod, Builtin, Partial, ClassVal, AwaitifyWrapped)):
             return True
+        if isinstance(v, UserCM):
+            return False
         if isinstance(v, Obj):
             return v.cls.lookup("__call__") is not None
         if isinstance(v, Opaque):
